@@ -712,22 +712,29 @@ func judgeFailure(c Case, w *sim.World, who string, err error, at time.Duration,
 			return vf.Bad("C01/conn/unjustified-error", "%s failed with %v although the network only lost / duplicated / delayed / corrupted datagrams (faults applied: %v)", who, err, w.Router.AppliedFaults())
 		}
 	}
-	// a timeout is justified only if some endpoint received no intact, first-copy datagram for a full timeout period
+	// A timeout is justified only if the endpoint that gave up received no intact datagram for the whole
+	// timeout period AND the network actually lost something in that period (a connection that goes quiet
+	// with unfinished transfers although nothing was lost is a stall, not a dead path).
 	limit := idle
-	if handshake {
+	if handshake && hsIdle < limit {
 		limit = hsIdle
 	}
-	if limit > idle {
-		limit = idle
+	dirToE := "s2c"
+	if who == "server" || who == "accept" {
+		dirToE = "c2s"
 	}
-	gap := longestSilence(w, at)
-	if gap+time.Duration(c.RTTms)*time.Millisecond < limit {
-		// total handshake duration limit (2 x handshake idle timeout) is the other legitimate cause
-		if handshake && at >= 2*hsIdle {
-			u.Class("justified-handshake-duration")
-			return nil
+	rtt := time.Duration(c.RTTms) * time.Millisecond
+	ctxGaveUp := errors.Is(err, context.DeadlineExceeded) || errors.Is(err, context.Canceled)
+	if !ctxGaveUp && !isHS { // (a HandshakeTimeoutError is the total-duration limit, not a silence)
+		if intact, _, _ := w.Router.Silence(dirToE, at-limit+rtt+100*time.Millisecond, at-50*time.Millisecond); intact > 0 {
+			return vf.Bad("C01/liveness/unjustified-timeout", "%s reports %v at %v although %d intact datagrams were delivered to it during the preceding timeout period (%v); faults applied: %v", who, err, at, intact, limit, w.Router.AppliedFaults())
 		}
-		return vf.Bad("C01/liveness/unjustified-timeout", "%s reports %v at %v, but the longest period in which an endpoint received no intact datagram was only %v (timeout %v); faults applied: %v", who, err, at, gap, limit, w.Router.AppliedFaults())
+	}
+	// PTO back-off can at most double a silence, so a timeout needs the path to have been dead for > limit/2;
+	// anything with a dead stretch >= limit/3 is accepted as justified, less is a stall.
+	dead := w.Router.DeadStretch(at)
+	if dead < limit/3 {
+		return vf.Bad("C01/liveness/stall-then-timeout", "%s reports %v at %v, but the longest stretch during which the network delivered nothing intact in a direction while losing datagrams was only %v (timeout %v): transfers stalled although the path was alive; faults applied: %v", who, err, at, dead, limit, w.Router.AppliedFaults())
 	}
 	u.Class("justified-timeout")
 	return nil
